@@ -13,7 +13,8 @@ from .geom import fields_same
 
 META = dict(
     bounds=dict(
-        quick=dict(mesh_n="(2,), (2,1), (1,2,1)", nvdim="1..3", depth="<=2 (strided subset of depth 2)",
+        quick=dict(also="components re-read after in-place edits; integer-typed field with fractional constants in angle (native)",
+                   mesh_n="(2,), (2,1), (1,2,1)", nvdim="1..3", depth="<=2 (strided subset of depth 2)",
                    leaves="vector field f, field g, scalar field s, symbolic number, symbolic constant vector, per-cell array",
                    operators="+ - * / **2 **3 unary- unary+ abs dot cross angle << real imag conjugate np.add np.multiply np.sin np.negative",
                    validity="symbolic bit per cell and per field"),
